@@ -274,3 +274,74 @@ func restartWithOldStore(t tfail, backend int) (problem string) {
 	}
 	return ""
 }
+
+// handOverAcrossZero: the hand-over range of a join wraps around identifier 0 - the joiner
+// becomes the lowest (or the highest) id of the ring - and the successor that hands over keeps
+// its data in the given backend and owns keys on both sides of the joiner. Afterwards every key
+// in every node's own store must hash into that node's range and sit on exactly one node, and
+// every key must still be readable.
+func handOverAcrossZero(t tfail, backend int, joinerLowest bool) (problem string) {
+	A, B := uint64(4)<<44, uint64(9)<<44
+	J := uint64(1) << 44 // (B, J] wraps: J becomes the lowest id, successor A
+	if !joinerLowest {
+		J = uint64(14) << 44 // (B, J] does not wrap but (J, A] does afterwards: J becomes the highest id
+	}
+	newKV, rmDirs := kvFactory(t, []int{backend, backend, 0}) // creation order: A, B, J
+	r := &simRing{net: ringsim.New(ringsim.Config{Seed: 77, NewKV: newKV}), members: map[uint64]*ringsim.Member{}}
+	defer func() { r.net.Close(); rmDirs() }()
+	if err := r.buildRing([]uint64{A, B}, func(i int) int { return 0 }); err != nil {
+		return "precondition: " + err.Error()
+	}
+	if _, c := r.settle(60, true, nil); c.Problem != "" {
+		return "precondition: " + c.Problem
+	}
+	ctx := context.Background()
+	var keys [][]byte
+	for i := 0; i < 120; i++ {
+		k := []byte(fmt.Sprintf("zero-%d", i))
+		keys = append(keys, k)
+		entry := r.live()[i%2].Node
+		if err := retryKV(func() error { return entry.Put(ctx, k, []byte("v")) }); err != nil {
+			return "precondition: put: " + err.Error()
+		}
+		if i%5 == 0 {
+			if err := retryKV(func() error { return entry.PrefixAppend(ctx, k, []byte("c")) }); err != nil {
+				return "precondition: append: " + err.Error()
+			}
+		}
+	}
+	if _, err := r.join(J, B); err != nil {
+		return "precondition: join: " + err.Error()
+	}
+	if _, c := r.settle(80, false, nil, false); c.Problem != "" {
+		return "precondition: not converged after the join: " + c.Problem
+	}
+	live := r.live()
+	ids := liveIDs(live)
+	holders := map[string][]uint64{}
+	for i, m := range live {
+		ks, err := m.KV.Inner().RangeKeys(ctx, 0, 0)
+		if err != nil {
+			return "precondition: RangeKeys: " + err.Error()
+		}
+		pre := ids[(i-1+len(ids))%len(ids)]
+		for _, k := range ks {
+			holders[string(k)] = append(holders[string(k)], m.ID)
+			if h := chord.Hash(k); !chord.Between(pre, h, m.ID, true) {
+				return fmt.Sprintf("node %d holds key %q (hash %d) outside its range (%d, %d] after node %d joined; ring %v", m.ID, k, h, pre, m.ID, J, ids)
+			}
+		}
+	}
+	for k, hs := range holders {
+		if len(hs) > 1 {
+			return fmt.Sprintf("key %q is held by nodes %v", k, hs)
+		}
+	}
+	for _, k := range keys {
+		var got []byte
+		if err := retryKV(func() (e error) { got, e = live[0].Node.Get(ctx, k); return }); err != nil || string(got) != "v" {
+			return fmt.Sprintf("key %q written before node %d joined reads %q, %v afterwards (held by %v)", k, J, got, err, holders[string(k)])
+		}
+	}
+	return ""
+}
